@@ -49,6 +49,9 @@ type FCase struct {
 	Eps    int64
 }
 
+// FEmpty: a Go struct without fields; every wire field of its class is unknown and must be skipped
+type FEmpty struct{}
+
 type Filler struct{ A int32 }
 
 func (c05) Cases(tier string, seed int64, kf *KnownFindings) []Case {
@@ -57,7 +60,7 @@ func (c05) Cases(tier string, seed int64, kf *KnownFindings) []Case {
 	add(Case{Kind: "perm", Seed: Mix(seed, 1), Count: 120})
 	add(Case{Kind: "drop", Seed: Mix(seed, 2), Count: 32})
 	add(Case{Kind: "extra1", Seed: Mix(seed, 3), Count: 6 * len(extraKinds)})
-	add(Case{Kind: "pos", Seed: Mix(seed, 4), Count: 41 * 3 * 2})
+	add(Case{Kind: "pos", Seed: Mix(seed, 4), Count: 41 * 4 * 2})
 	n, per := 8, 100
 	if tier == "thorough" {
 		n, per = 128, 1500
@@ -275,7 +278,26 @@ func (sp *c05spec) build() (stream []byte, reads int, pickLast bool, expect inte
 		for i := 0; i < pre; i++ {
 			l.Elems = append(l.Elems, mkFiller(i))
 		}
+		// the target is followed by a sentinel: whatever the instance leaves unread corrupts it
+		l.Elems = append(l.Elems, targetObj, hspec.Int(424242))
+		enc.Value(l)
+		reads++
+		pickLast = true
+	case "hoist-reorder":
+		// all definitions up front, first instances arrive in REVERSE definition order
+		var fl []*hspec.Value
+		for i := 0; i < pre; i++ {
+			f := mkFiller(i)
+			enc.Define(f)
+			fl = append(fl, f)
+		}
+		enc.Define(targetObj)
+		l := hspec.List("")
 		l.Elems = append(l.Elems, targetObj)
+		for i := len(fl) - 1; i >= 0; i-- {
+			l.Elems = append(l.Elems, fl[i])
+		}
+		l.Elems = append(l.Elems, targetObj, hspec.Int(424242)) // the same instance again (a ref), then the sentinel
 		enc.Value(l)
 		reads++
 		pickLast = true
@@ -300,7 +322,8 @@ func (c05) Run(c Case, env *Env) Result {
 	// about a class across Reset shows up as a wrong binding
 	var sharedDec *hessian.Decoder
 	var sharedSer hessian.Serializer
-	hows := []string{"stream", "list", "hoist"}
+	hows := []string{"stream", "list", "hoist", "hoist-reorder"}
+	tEmpty := reflect.TypeOf(FEmpty{})
 	for j := lo; j < hi; j++ {
 		r := rand.New(rand.NewSource(Mix(c.Seed, j)))
 		sp := &c05spec{goType: t5, how: "stream", valsSeed: Mix(c.Seed, 5000+j)}
@@ -322,8 +345,8 @@ func (c05) Run(c Case, env *Env) Result {
 		case "pos":
 			sp.perm = []int{0, 1, 2, 3, 4}
 			sp.p = j % 41
-			sp.how = hows[(j/41)%3]
-			sp.long = j/(41*3) == 1 || sp.p >= 16
+			sp.how = []string{"stream", "list", "hoist", "hoist-reorder"}[(j/41)%4]
+			sp.long = (j/(41*4))%2 == 1 || sp.p >= 16
 			feats = append(feats, "how="+sp.how)
 		default:
 			switch r.Intn(4) {
@@ -332,9 +355,16 @@ func (c05) Run(c Case, env *Env) Result {
 			case 1:
 				sp.goType = tCase
 				feats = append(feats, "case-variant-fields")
+			case 2:
+				if r.Intn(2) == 0 {
+					sp.goType = tEmpty // no Go fields at all: every wire field is an extra
+					feats = append(feats, "fieldless-go-struct")
+				}
 			}
 			nf := sp.goType.NumField()
-			sp.perm = permOf(nf, r.Intn(120)%fact(nf))
+			if nf > 0 {
+				sp.perm = permOf(nf, r.Intn(120)%fact(nf))
+			}
 			// drop a random subset
 			if r.Intn(2) == 0 {
 				var keep []int
@@ -352,7 +382,7 @@ func (c05) Run(c Case, env *Env) Result {
 			for k := r.Intn(4); k > 0; k-- {
 				ek := extraKinds[r.Intn(len(extraKinds))]
 				x := c05extra{at: r.Intn(len(sp.perm) + 1), kind: ek}
-				if r.Intn(3) == 0 && (ek == "string" || ek == "int" || ek == "null" || ek == "long") {
+				if r.Intn(3) == 0 && sp.goType.NumField() > 0 && (ek == "string" || ek == "int" || ek == "null" || ek == "long") {
 					// a name that equals a real field only when case is ignored beyond the first letter
 					f := sp.goType.Field(r.Intn(sp.goType.NumField())).Name
 					v := strings.ToUpper(f)
@@ -374,8 +404,11 @@ func (c05) Run(c Case, env *Env) Result {
 				}
 			}
 			sp.p = []int{0, 0, 1, 2, 3, 15, 16, 17, 30, 40}[r.Intn(10)]
-			sp.how = hows[r.Intn(3)]
+			sp.how = hows[r.Intn(4)]
 			sp.long = r.Intn(3) == 0 || sp.p >= 16
+			if sp.goType == tEmpty && len(sp.extras) == 0 {
+				sp.extras = []c05extra{{at: 0, kind: "string"}, {at: 0, kind: "int"}}
+			}
 			feats = append(feats, "how="+sp.how)
 		}
 		if sp.p == 2 {
@@ -443,11 +476,28 @@ func (c05) Run(c Case, env *Env) Result {
 		}
 		if pickLast {
 			l, ok := out.([]interface{})
-			if !ok || len(l) != sp.p+1 {
-				viol("mismatch", fmt.Sprintf("enclosing list decoded as %T of %d", out, reflect.ValueOf(out).Len()))
+			if !ok || len(l) < 2 {
+				viol("mismatch", fmt.Sprintf("enclosing list decoded as %T", out))
 				continue
 			}
-			out = l[len(l)-1]
+			if s, ok := l[len(l)-1].(int32); !ok || s != 424242 {
+				viol("mismatch", fmt.Sprintf("the value after the instance was decoded as %T %v, want int32 424242", l[len(l)-1], l[len(l)-1]))
+				continue
+			}
+			if sp.how == "hoist-reorder" {
+				// fillers in between must be Filler{A: i} in reverse order
+				for i := 0; i < sp.p; i++ {
+					f, ok := l[1+i].(*Filler)
+					if !ok || int(f.A) != sp.p-1-i {
+						viol("mismatch", fmt.Sprintf("element %d of the list decoded as %T %+v, want *Filler{A:%d}", 1+i, l[1+i], l[1+i], sp.p-1-i))
+						break
+					}
+				}
+				if l[0] != l[len(l)-2] {
+					viol("mismatch", "the instance and the reference to it decode to different objects")
+				}
+			}
+			out = l[len(l)-2]
 		}
 		if d := zoo.Equiv(expect, out, zoo.EquivOpts{}); d != "" {
 			viol("mismatch", d)
@@ -458,7 +508,7 @@ func (c05) Run(c Case, env *Env) Result {
 			if sharedDec == nil {
 				// one complete type map for the whole batch, so that no Register* call is needed between streams
 				all := map[string]reflect.Type{"test.Inner": reflect.TypeOf(zoo.Inner{}), "[int32": reflect.TypeOf([]int32{}),
-					"test.Target.F5": t5, "test.Target.F3c": t3, "test.Target.FCase": tCase}
+					"test.Target.F5": t5, "test.Target.F3c": t3, "test.Target.FCase": tCase, "test.Target.FEmpty": tEmpty}
 				for i := 0; i <= 41; i++ {
 					all[fmt.Sprintf("test.Filler%02d", i)] = reflect.TypeOf(Filler{})
 				}
@@ -476,8 +526,8 @@ func (c05) Run(c Case, env *Env) Result {
 					}
 				})
 				if pickLast && o2 != nil {
-					if l, ok := o2.([]interface{}); ok && len(l) > 0 {
-						o2 = l[len(l)-1]
+					if l, ok := o2.([]interface{}); ok && len(l) > 1 {
+						o2 = l[len(l)-2]
 					}
 				}
 				switch {
